@@ -42,13 +42,23 @@ def css_property(node: CSSProperty, out: OutputStream, config: Config):
             out.push(',')
         else:
             output_important(node, out, True)
-            out.push(config.options.get('stylesheet.after'))
+            push_lines(out, config.options.get('stylesheet.after'))
     else:
         # It’s a regular snippet, output plain tokens without any additional formatting
         for css_val in node.value:
             for v in css_val.value:
                 output_token(v, out, config)
         output_important(node, out, len(node.value) > 0)
+
+
+def push_lines(out: OutputStream, value: str):
+    """
+    Pushes given string line by line so that line breaks inside it (including
+    leading and trailing ones) keep line/column state of output stream in sync
+    """
+    for i, line in enumerate(re.split(r'\r\n|\r|\n', value)):
+        if i: out.push_newline(True)
+        out.push(line)
 
 
 def css_property_value(node: CSSProperty, out: OutputStream, config: Config):
